@@ -8,7 +8,11 @@ use crate::rng::Rng;
 const IDENTS: [&str; 8] = ["a", "b", "c", "foo", "bar", "_x", "A1", "length"];
 const FUNCS: [&str; 8] = ["length", "sort_by", "max_by", "not_null", "abs", "f", "to_string", "merge"];
 const QIDENTS: [&str; 6] = ["\"a\"", "\"\"", "\"a b\"", "\"\\u00e9\"", "\"\\\"q\\\\\"", "\"日本\""];
-const LITS: [&str; 10] = [
+const LITS: [&str; 14] = [
+    "`18446744073709551615`",
+    "`9223372036854775808`",
+    "`[9223372036854775807, -9223372036854775808, 10000000000000000000]`",
+    "`1e308`",
     "`1`",
     "`\"s\"`",
     "`null`",
@@ -479,8 +483,9 @@ pub fn lookalike_case(rng: &mut Rng) -> String {
         "{l}", "a{l}", "{l}a", "a.{l}", "a.b{l}c", "f{l}(a)", "&{l}",
         "a{b}", "{b}a", "a{b}.b", "a .{b}b", "a{b}|{b}b", "[a,{b}b]", "a{b}", "'x'{b}", "a[{b}0]",
         // … after a legal blank, in front of a call, between a name and its parenthesis
+        "`{b}true`", "`true{b}`", "`{b}1`", "` {b}null`", "`[1,{b}2]`", "a == `{b}\"s\"`",
         "a {b}.b", "a\n{b}b", "[a, {b}b]", "{b}abs(a)", "abs{b}(a)", "abs({b}a)", "abs(a{b})", " {b} abs(a)", "a |\t{b}abs(b)",
-    ][rng.below(37)];
+    ][rng.below(43)];
     t.replace("{d}", d).replace("{l}", l).replace("{b}", b)
 }
 
@@ -504,4 +509,26 @@ pub fn surrogate_case(rng: &mut Rng) -> String {
     };
     let frames = ["{}", "a.{}", "{} | b", "[{}]", "{{k: {}}}", "a[?{} == b]"];
     frames[rng.below(frames.len())].replacen("{}", &tok, 1).replace("{{", "{").replace("}}", "}")
+}
+
+/// Backtick literals that are (mostly) not JSON: escaped back-ticks, multi-byte characters, raw
+/// line feeds, truncated escapes, unterminated strings / arrays, keywords padded with look-alike
+/// blanks — and the same body between different delimiters side by side.
+pub fn malformed_literal_case(rng: &mut Rng) -> String {
+    const PIECES: [&str; 24] = [
+        "\"", "[", "{", "1", ",", "\\`", "ключ", "я", "é", "\n", "\r\n", "\\u12", "\\u", "\\ud83d", "true", "nul", " ", "\u{A0}", "\u{2003}", "\u{B}", ":", "]", "\\", "abc",
+    ];
+    let n = 1 + rng.below(6);
+    let body: String = (0..n).map(|_| PIECES[rng.below(PIECES.len())]).collect();
+    match rng.below(8) {
+        0 => format!("`{}`", body),
+        1 => format!("a | `{}`", body),
+        2 => format!("[`1`, `{}`]", body),
+        // the same characters between different delimiters (each kind decodes on its own)
+        3 => format!("['{}', `{}`]", body.replace('\'', ""), body),
+        4 => format!("[`{}`, '{}']", body, body.replace('\'', "")),
+        5 => format!("foo[?a == '{}' || b == `{}`]", body.replace('\'', ""), body),
+        6 => format!("`{}{}`", ["\u{A0}", "\u{B}", "\u{C}", "\u{2003}", "\u{3000}", "\u{FEFF}"][rng.below(6)], ["true", "false", "null", "1", "\"s\"", "[]"][rng.below(6)]),
+        _ => format!("`{}{}`", ["true", "false", "null", "1", "{}"][rng.below(5)], ["\u{A0}", "\u{B}", "\u{85}", "\u{2028}", "\u{3000}"][rng.below(5)]),
+    }
 }
